@@ -122,6 +122,11 @@ def eval_case(pid, pl, res, case, obs, kf_class=None):
                     if f["ty"].get("k") == "fn" and f["ty"].get("cc") != s["cc"]:
                         problems.append(f"{t['name']}Vftable slot {i} `{f['name']}` has convention {f['ty'].get('cc')} but the base table "
                                         f"declares {s['cc']} for that slot")
+    if pid == "C06" and ptr == 8 and cid in pl.cfail["host"]:
+        from .compile import in_fragment
+        if in_fragment(case):
+            # e.g. an accessor that returns the base's table pointer without reinterpreting it as the derived table type
+            problems.append(f"the emitted hierarchy does not type-check: {pl.cfail['host'][cid].strip()[:200]}")
     if problems:
         res.violation("; ".join(problems[:3]), payload(case, obs), kf_class)
 
